@@ -1,7 +1,7 @@
 (* E2C.v -- model side of the wire engine (harness/e2): for every scenario the
    model predicts what the application and the raw peer observe. *)
-From WT.Model Require Import Base Varint Ids Frame Async StreamTS Wire Qpack Session Runner.
-From WT.Corr Require Import CorrBase StreamTSC.
+From WT.Model Require Import Base Varint Ids Frame Async StreamTS Wire Qpack Session Runner Emit Term.
+From WT.Corr Require Import CorrBase StreamTSC WireC QpackC E2Strings.
 
 Definition PENDING : list N := [8].
 Definition NOT_ISSUED : list N := [9].
@@ -162,14 +162,120 @@ Definition chk_621 (a o : list (list N)) : bool :=
   | PNormal m => lists_match m o
   end.
 
+(* ---- family 631: what the endpoint emits ---- *)
+Definition control_ok (bs : bytes) : bool :=
+  match sheader_read bs with
+  | (SVal (mksheader SControl None), r1) =>
+      match frame_read r1 with
+      | (RVal (mkframe KSettings payload None), []) =>
+          match settings_with_frame payload with
+          | Val m => list_eqb (flat (sort_pairs m)) (flat (sort_pairs local_settings))
+          | _ => false
+          end
+      | _ => false
+      end
+  | _ => false
+  end.
+
+Definition chk_631 (a o : list (list N)) : bool :=
+  let sid := 4 * argn 0 0 a in
+  match o with
+  | [h; ok; control; uni; bi; dg] =>
+      list_eqb h [1; sid] && list_eqb ok [1; 1; 1] && control_ok control &&
+      list_eqb uni (emit_uni_preamble sid ++ arg 1 a) &&
+      list_eqb bi (emit_bi_preamble sid ++ arg 2 a) &&
+      list_eqb dg (emit_datagram sid (arg 3 a))
+  | _ => false
+  end.
+
+(* ---- family 641: stream termination signals ---- *)
+Definition enc_sw (e : swerr) : list N :=
+  match e with SWNotConnected => [3] | SWClosed => [4] | SWStopped c => [1; c] | SWQuicProto => [6] end.
+Definition model_641 (a : list (list N)) : list (list N) :=
+  let op := argn 0 0 a in let code := argn 0 1 a in let nb := argn 0 2 a in
+  match op with
+  | 1 => [[1]; enc_sw (map_stopped (QSSome code)); enc_sw (map_write (QWStopped code));
+          match finish_result (QSSome code) with Some e => enc_sw e | None => [0] end]
+  | 2 => [[1]; match map_read (QRReset code) with SRReset c => [1; c] | _ => [3] end]
+  | 3 => [[1]; [1; varint_w2q code]]
+  | 4 => [[1; 1]; [1; varint_w2q code]]
+  | 5 => [[1; 1; nb]; match finish_result QSNone with None => [0] | Some e => enc_sw e end; [0]]
+  | _ => [[PANIC]]
+  end.
+
+(* ---- family 651: datagrams ---- *)
+Definition opt_of (l : list N) : option N := match l with [1; v] => Some v | _ => None end.
+Fixpoint probes_ok (qm sid : N) (l : list N) : bool :=
+  match l with
+  | L :: r :: rest => ((r =? (if send_too_large qm sid L then 1 else 0))) && probes_ok qm sid rest
+  | [] => true
+  | _ => false
+  end.
+Fixpoint expected_dgrams (sid : N) (ds : list (list N)) : list bytes * bool :=
+  match ds with
+  | [] => ([], true)
+  | d :: r =>
+      let (l, ok) := expected_dgrams sid r in
+      match drv_dgram_read d with
+      | Val (s, _, p) => ((if s =? sid then p :: l else l), ok)
+      | _ => (l, false)
+      end
+  end.
+Fixpoint bins (p : bytes) (l : list bytes) : list bytes :=
+  match l with [] => [p] | q :: r => if lex_leb p q then p :: l else q :: bins p r end.
+Definition chk_651 (a o : list (list N)) : bool :=
+  let sid := 4 * argn 0 0 a in
+  match o with
+  | h :: wt :: qmx :: probes :: peer :: cnt :: rest =>
+      let qm := opt_of qmx in
+      let '(exp, all_ok) := expected_dgrams sid (skipn 2 a) in
+      let exp_sorted := fold_right bins [] exp in
+      list_eqb h [1; sid] &&
+      (match max_datagram_size qm sid with Some m => list_eqb wt [1; m] | None => list_eqb wt [0] end) &&
+      (match qm with Some q => probes_ok q sid probes | None => match probes with [] => true | _ => false end end) &&
+      (nth 1 peer 1 =? 0) &&
+      (if all_ok then
+         list_eqb cnt [N.of_nat (length exp_sorted)] && lists_eqb (firstn (length exp_sorted) rest) exp_sorted
+       else lists_eqb (last2 o) [[1; to_code EDatagram]; []])
+  | _ => false
+  end.
+
+(* ---- family 661: the client against a raw server ---- *)
+Definition chk_661 (a o : list (list N)) : bool :=
+  let resp := arg 1 a in
+  let t := term_of_mode (match argn 2 0 a with 0 => 0 | 1 => 1 | _ => 2 end) in
+  let extra := pairs_of (skipn 3 a) in
+  let reserved := existsb (fun kv => is_reserved (fst kv)) extra in
+  match o with
+  | [h; outcome; reqframe; ch; cr; port] =>
+      if reserved then list_eqb outcome [4]
+      else
+        let authority := loopback_prefix ++ show_dec (nth 0 port 0) in
+        let req := fold_left (fun m kv => hinsert (fst kv) (snd kv) m) extra (request_new authority client_path) in
+        list_eqb reqframe (qpack_encode (sorted_headers req)) &&
+        match client_response resp t with
+        | CSession => list_eqb outcome [0; 0]
+        | CSessionRejected => list_eqb outcome [1]
+        | CLocalH3 e => list_eqb outcome [2; 2; ecode_idx e] && list_eqb ch [1; to_code e]
+        | CNoConnection => list_eqb outcome [2; 3]
+        | CPending => list_eqb outcome [8]
+        end
+  | _ => false
+  end.
+
 Definition model (f : N) (a : list (list N)) : list (list N) :=
   match f with
   | 601 => model_601 a
   | 611 => model_611 a
   | 621 => match predict_621 a with PClose code => [[1; code]] | PNormal m => m end
+  | 641 => model_641 a
   | _ => [[PANIC]]
   end.
 
 Definition chk (c : case) : bool :=
   let '(f, a, o) := c in
-  if f =? 621 then chk_621 a o else lists_eqb (model f a) o.
+  if f =? 621 then chk_621 a o
+  else if f =? 631 then chk_631 a o
+  else if f =? 651 then chk_651 a o
+  else if f =? 661 then chk_661 a o
+  else lists_eqb (model f a) o.
